@@ -1194,7 +1194,35 @@ func oracleC06(r *report, g *G, n int, single string) {
 		checkSequenceBytes(r, g, all, "")
 	}
 	bigFrameStreams(r, g, false)
+	strayStreams(r, g, n/20+10)
 	r.sample(map[string]string{"stream": "9002000a c000 + trailing", "expect": "SUBACK then PINGREQ, 4 and 2 bytes consumed"})
+}
+
+// strayStreams: a PUBLISH (or another packet with lists), then frames of other types that carry a
+// property they have no field for, then more: every packet returned stays what it was
+func strayStreams(r *report, g *G, rounds int) {
+	for i := 0; i < rounds; i++ {
+		sid := byte(1 + g.pick(100))
+		stray := [][]byte{{0x40, 6, 0, 9, 0, 2, 0x0b, sid}, {0x50, 6, 0, 9, 0, 2, 0x0b, sid}, {0x62, 6, 0, 9, 0, 2, 0x0b, sid}, {0x70, 6, 0, 9, 0, 2, 0x0b, sid},
+			{0x20, 5, 0, 0, 2, 0x0b, sid}, {0xe0, 4, 0, 2, 0x0b, sid}, {0x90, 6, 0, 1, 2, 0x0b, sid, 0}, {0xb0, 6, 0, 1, 2, 0x0b, sid, 0},
+			{0xa2, 9, 0, 1, 2, 0x0b, sid, 0, 1, 'a'}, {0xf0, 4, 0, 2, 0x0b, sid}, {0x40, 10, 0, 9, 0, 6, 0x0b, sid, 0x0b, 0x81, 0x01, 0x0b, 1}}
+		g.domain, g.big = true, false
+		pub := frameOf(build(3, append(domainFix(3, g.subset(3, 50)), "SetTopicName:742f31")))
+		g.domain, g.big = false, true
+		var all []byte
+		all = append(all, pub...)
+		for j := 0; j < 2+g.pick(4); j++ {
+			all = append(all, stray[g.pick(len(stray))]...)
+			if g.chance(30) {
+				all = append(all, pub...)
+			}
+			if g.chance(30) {
+				all = append(all, g.soupFrame()...)
+			}
+		}
+		all = append(all, 0xc0, 0)
+		checkSequenceBytes(r, g, all, "")
+	}
 }
 
 // checkSequenceBytes splits the byte string into declared frames and checks that
@@ -1468,6 +1496,20 @@ func oracleC07(r *report, g *G, n int, single string) {
 	}
 	for i := 0; i < 2+n/200; i++ {
 		checkFrame(g.bigPublish(), false)
+	}
+	// several frames in one stream (valid, rejected, with zero-padded remaining lengths): however
+	// the bytes are cut up - and whatever a buffering reader already holds when ReadPacket is
+	// called - each call returns what its frame returns alone
+	for i := 0; i < n/10+20; i++ {
+		var all []byte
+		for j := 0; j < 2+g.pick(3); j++ {
+			f := g.seqFrame()
+			if g.chance(25) {
+				f = padLength(g.validFrame())
+			}
+			all = append(all, f...)
+		}
+		checkSequenceBytes(r, g, all, "")
 	}
 	r.sample(map[string]string{"frame": "40020007", "schedules": "all 8 compositions x zero-length reads x EOF styles"})
 }
@@ -2345,6 +2387,15 @@ func oracleC11(r *report, g *G, n int, single string) {
 			}
 		}
 		g.domain, g.big = false, true
+		// other frames are decoded in the meantime (some carry properties their type has no field for)
+		for j := 0; j < 30; j++ {
+			sid := byte(1 + g.pick(100))
+			for _, f := range [][]byte{{0x40, 6, 0, 9, 0, 2, 0x0b, sid}, {0x50, 6, 0, 9, 0, 2, 0x0b, sid}, {0x62, 6, 0, 9, 0, 2, 0x0b, sid},
+				{0x70, 6, 0, 9, 0, 2, 0x0b, sid}, {0x20, 5, 0, 0, 2, 0x0b, sid}, {0xe0, 4, 0, 2, 0x0b, sid}, {0x90, 6, 0, 1, 2, 0x0b, sid, 0}} {
+				readOnce(oneChunk(f))
+			}
+			readOnce(oneChunk(g.soupFrame()))
+		}
 		time.Sleep(2100 * time.Millisecond)
 		for _, d := range ds {
 			if e := frameOf(d.p); !bytesEq(e, d.enc) || snapshot(d.p) != d.snap {
@@ -4161,6 +4212,59 @@ func oracleC14(r *report, g *G, n int, single string) {
 			r.fail("packets-interfere", "H 8"+sp(cs)+" then b.AddFilters(a.Filters()...)", "adding filters to the packet the filters were taken from changed the other packet: "+trunc(snapshot(b))+" before "+trunc(snapB))
 		}
 		r.eval("filters-handed-over", true, sp(cs))
+	}
+	// a will message, a password, binary data taken from one packet and given to another, which
+	// is then decoded into, cleared, overwritten: the packet they came from stays as it was
+	for i := 0; i < n/10+10; i++ {
+		g.domain, g.big = true, false
+		cs := append(g.subset(1, 60), "SetWill:[SetTopicName:"+hexs(g.nonEmpty())+";SetPayload:"+hexs(g.nonEmpty())+";SetQoS:1;AddUserProp:6b:76]",
+			"SetPassword:"+hexs(g.nonEmpty()), "SetAuthData:"+hexs(g.nonEmpty()), "SetUsername:75")
+		g.domain, g.big = false, true
+		f1 := frameOf(build(1, cs))
+		var c1 *mq.Connect
+		if g.chance(50) {
+			c1 = build(1, cs).(*mq.Connect)
+		} else if o := readOnce(oneChunk(f1)); o.kind == 1 {
+			c1 = o.p.(*mq.Connect)
+		} else {
+			continue
+		}
+		snap1, enc1 := snapshot(c1), encS(c1)
+		desc := ""
+		func() {
+			defer func() { recover() }()
+			c2 := mq.NewConnect()
+			switch g.pick(3) {
+			case 0:
+				desc = "c2.SetWill(c1.Will()); c2.UnmarshalBinary(a CONNECT with another will)"
+				c2.SetWill(c1.Will())
+				other := frameOf(build(1, []string{"SetClientID:6f", "SetWill:[SetTopicName:6f74686572;SetQoS:2;SetRetain:1;SetPayload:6f6f6f;AddUserProp:6f:6f]"}))
+				_, hl := splitFrame(other)
+				c2.UnmarshalBinary(other[hl:])
+			case 1:
+				desc = "c2.SetPassword(c1.Password()); c2.SetAuthData(c1.AuthData()); then cleared and replaced on c2"
+				c2.SetPassword(c1.Password())
+				c2.SetAuthData(c1.AuthData())
+				c2.SetPassword(nil)
+				c2.SetAuthData(nil)
+				c2.SetPassword([]byte("zz"))
+				c2.SetPassword([]byte{})
+			default:
+				desc = "the will's payload and correlation data given to another PUBLISH, cleared there"
+				if w := c1.Will(); w != nil {
+					p2 := mq.NewPublish()
+					p2.SetPayload(w.Payload())
+					p2.SetCorrelationData(w.CorrelationData())
+					p2.SetPayload(nil)
+					p2.SetCorrelationData(nil)
+					p2.SetPayload([]byte("q"))
+				}
+			}
+		}()
+		if snapshot(c1) != snap1 || encS(c1) != enc1 {
+			r.fail("packets-interfere", "H 1"+sp(cs)+" then "+desc, "the first packet changed: "+trunc(snapshot(c1))+" before "+trunc(snap1))
+		}
+		r.eval("handed-over", true, desc)
 	}
 	// decoding into packets that came from the constructors
 	for i := 0; i < n/10+5; i++ {
